@@ -166,6 +166,7 @@ def ap_replay(args):
                 mk = ap.to_mask(method='exact')
                 for x in (mk if isinstance(mk, list) else [mk]):
                     x.data[...] = 0.0                    # the caller's own copy of the weights
+                ap._to_patch(origin=(3.0, -2.0))         # drawn shifted by an origin (what plot(origin=...) does): a copy is shifted
             elif op == 'iadd_pos':
                 p['shift'] += 1
                 ap.positions += AP_DELTA
